@@ -224,6 +224,31 @@ def _copy_worker(item):
     return res
 
 
+def _big_worker(item):
+    """blocks far beyond any buffer size (20 000 values, 20-320 KB) in every position of a two-call program, one session and
+    two (append mode), path and stream, both versions: what a writer does differently for large segments"""
+    ai, seed = item
+    assign = W.assignments()[ai]
+    res = {'counters': {'programs': 0, 'nontrivial': 0, 'multi_session': 0}, 'outcomes': {}, 'violations': [], 'samples': []}
+    if assign[0] not in W.ND or assign[1] not in W.ND:
+        return res
+    big = [['C', 'g', 'a', 0, 20000, 0]]
+    small = [['C', 'g', 'a', 0, 3, 0], ['C', 'g', 'b', 1, 2, 0]]
+    bigb = [['C', 'g', 'b', 1, 20000, 0], ['C', 'g', 'a', 0, 1, 0]]
+    for calls in ([big], [small, big], [big, small], [big, big], [small, bigb], [bigb, big]):
+        for split, version, dest in variants(len(calls)):
+            oc, why = check_program(calls, assign, split, version, dest)
+            res['counters']['programs'] += 1
+            res['counters']['nontrivial'] += 1
+            res['counters']['multi_session'] += 1 if split else 0
+            res['outcomes'][oc] = res['outcomes'].get(oc, 0) + 1
+            if why is not None and len(res['violations']) < 6:
+                res['violations'].append({'case': {'big_calls': calls, 'assign': list(assign), 'split': split, 'version': version, 'dest': dest},
+                                          'expected': 'read back == written', 'observed': why[1],
+                                          'signature': {'kind': 'big-' + why[0], 'data_kinds': sorted(set(assign[:2])), 'detail': 'split=%s dest=%s' % (bool(split), dest)}})
+    return res
+
+
 def writer_states(calls, split):
     """abstract writer states (root written?, groups declared so far in this session) a program passes through"""
     out = set()
@@ -295,7 +320,8 @@ def run(ctx):
         items = [it for it in items if it[2] % 3] + [(f, 3, ai, ctx.seed) for ai in range(0, nassign, 3) for f in range(len(shapes))]
     else:
         items += [(f, 3, ai, ctx.seed, ORDER_SUB) for ai in range(0, nassign, 4) for f in ORDER_SUB]
-    m = merge(ctx.map(_worker, items, chunksize=2) + ctx.map(_copy_worker, [(ai, ctx.seed) for ai in range(nassign)]))
+    m = merge(ctx.map(_worker, items, chunksize=2) + ctx.map(_copy_worker, [(ai, ctx.seed) for ai in range(nassign)]) +
+              ctx.map(_big_worker, [(ai, ctx.seed) for ai in range(nassign)]))
     c = m['counters']
     vac = []
     for need in ('equal', 'rejected', 'skipped'):
@@ -326,7 +352,7 @@ def replay(case):
             if v['case']['copy_seq'] == case['copy_seq'] and v['case']['raw_ts'] == case['raw_ts']:
                 return True, v['expected'], v['observed']
         return False, 'copy == original', 'equal'
-    calls = [shapes[i] for i in case['seq']]
+    calls = case['big_calls'] if 'big_calls' in case else [shapes[i] for i in case['seq']]
     oc, why = check_program(calls, tuple(case['assign']), case['split'], case['version'], case['dest'])
     if why is None:
         return False, 'read back == written', oc
